@@ -1,14 +1,479 @@
 import Astria.Abci.Model
 import Driver.Common
-/- Area `abci` (stub): replays the trace through the model. -/
+/- Area `abci` (C05, C06): replays the trace of /verif/harness/sequencer/abci.rs through
+   `Astria.Abci.step` and evaluates the decidable specs on what the implementation reported.
+
+   The abstract primitives of the model are instantiated per line with *oracles* read from the
+   line (what each transaction's execution returned, which transactions could be constructed at
+   block start, whether an opaque phase failed); the model then has to reproduce everything that
+   is control flow: accept / reject and its kind, which phases ran in which order (`ph=`), the
+   execution-state fingerprint (`exec=`), whether the working state was reset (`rs=`), which
+   transactions a proposal includes and its sizes, the per-item result codes of FinalizeBlock. -/
 namespace Driver.AbciArea
+open Astria.Abci
+
+/-! ### small parsing helpers -/
+
+def kvOf (ws : List String) (k : String) : Option String :=
+  ws.findSome? fun w =>
+    match w.splitOn "=" with
+    | k' :: rest => if k' = k ∧ !rest.isEmpty then some ("=".intercalate rest) else none
+    | [] => none
+
+def kv (ws : List String) (k : String) : String := (kvOf ws k).getD ""
+
+def natOf (s : String) : Nat := s.toNat?.getD 0
+
+def idOf (s : String) : Nat :=
+  natOf (String.ofList (s.toList.dropWhile (fun c => c.isAlpha)))
+
+def hexDigit (c : Char) : Nat :=
+  if c.isDigit then c.toNat - '0'.toNat
+  else if 'a' ≤ c ∧ c ≤ 'f' then c.toNat - 'a'.toNat + 10 else 0
+
+def hexToNat (s : String) : Nat := s.toList.foldl (fun acc c => acc * 16 + hexDigit c) 0
+
+def sections (s : String) : List String := s.splitOn " | "
+
+def commaList (s : String) : List String :=
+  if s = "-" ∨ s = "" then [] else s.splitOn ","
+
+/-! ### the concrete state of the replay: a phase log -/
+
+structure DS where
+  log : String := ""
+  n : Nat := 0            -- successful executions so far in this call
+  deriving Inhabited
+
+structure TxInfo where
+  tx : Tx
+  spec : String
+  deriving Inhabited
+
+structure BlkInfo where
+  blk : Block
+  lcStr : String
+  er : Nat × Nat
+  np : Nat
+  src : String
+  hashStr : String
+  deriving Inhabited
+
+/-- oracles of one call -/
+structure Oracle where
+  veValid : Bool := true
+  preFails : Option Err := none
+  postFails : Bool := false
+  pricesFail : Bool := false
+  cs : List (Nat × Bool) := []
+  /-- (tx id, successes before the attempt, outcome letter) in attempt order -/
+  outcomes : List (Nat × Nat × Char) := []
+  roots : Nat × Nat := (0, 0)
+  eciFull : Nat × Nat := (0, 0)
+  eciEmpty : Nat × Nat := (0, 0)
+  np : Nat := 0
+
+def attempts (ids : List Nat) (letters : List Char) : List (Nat × Nat × Char) :=
+  let rec go : List Nat → List Char → Nat → List (Nat × Nat × Char)
+    | id :: ids, c :: cs, k =>
+        if c = 's' ∨ c = '_' ∨ c = '-' then go ids cs k
+        else (id, k, c) :: go ids cs (if c = 'k' then k + 1 else k)
+    | _, _, _ => []
+  go ids letters 0
+
+def hasTxItems (b : Block) : Bool :=
+  match parseItems true b.items with
+  | .ok pd => !pd.txs.isEmpty
+  | .error _ => false
+
+def mkPrims (o : Oracle) : Prims DS :=
+  { veEnabled := fun _ _ => true
+    veValid := fun _ _ => o.veValid
+    pre := fun s b =>
+      match o.preFails with
+      | some e => .error e
+      | none => .ok { s with log := s.log ++ "P" ++ (if hasTxItems b then "C" else "") }
+    constructible := fun _ t => (o.cs.find? (·.1 = t.id)).map (·.2) |>.getD false
+    execTx := fun s t =>
+      match o.outcomes.find? (fun e => e.1 = t.id ∧ e.2.1 = s.n) with
+      | some (_, _, 'k') => .ok { s with n := s.n + 1 }
+      | some (_, _, 'n') => .nonfatal
+      | some (_, _, 'i') => .invalidNonce
+      | _ => .fatal
+    roots := fun _ _ => o.roots
+    eciFull := fun _ _ => o.eciFull
+    eciEmpty := o.eciEmpty
+    post := fun s _ _ => if o.postFails then .error .post else .ok ({ s with log := s.log ++ "O" }, 0)
+    prices := fun s _ =>
+      if o.pricesFail then .error .prices
+      else .ok ({ s with log := s.log ++ (if o.np > 0 then "$" else "") }, 0) }
+
+/-! ### session state -/
+
+structure Sess where
+  no : Nat := 0
+  insts : Array (AppState DS) := #[]
+  txs : List (Nat × TxInfo) := []
+  blks : List (Nat × BlkInfo) := []
+  lcs : List String := []
+  xs : List (List Item × Nat) := []
+  /-- block id ↦ core of the first FinalizeBlock result seen, its line number -/
+  fins : List (Nat × String × Nat) := []
+  /-- height ↦ core of the first Commit result seen -/
+  commits : List (Nat × String) := []
+  deriving Inhabited
+
+def Sess.lcId (s : Sess) (lc : String) : Sess × Nat :=
+  match s.lcs.findIdx? (· = lc) with
+  | some i => (s, i)
+  | none => ({ s with lcs := s.lcs ++ [lc] }, s.lcs.length)
+
+def Sess.lcStr (s : Sess) (i : Option Nat) : String :=
+  match i with
+  | some i => s.lcs.getD i "?"
+  | none => "nil"
+
+def Sess.xOf (s : Sess) (items : List Item) : String :=
+  match s.xs.find? (·.1 = items) with
+  | some (_, x) => toString x
+  | none => "?"
+
+def Sess.cpLabel (s : Sess) (c : CachedProposal) : String :=
+  s!"{c.height}.{c.time}.{c.proposer}.{s.lcStr c.lastCommit}.{s.xOf c.txs}"
+
+def hex8 (n : Nat) : String :=
+  let ds := (List.range 8).reverse.map fun i =>
+    let d := (n / 16 ^ i) % 16
+    Char.ofNat (if d < 10 then '0'.toNat + d else 'a'.toNat + d - 10)
+  String.ofList ds
+
+def Sess.execStr (s : Sess) : ExecState → String
+  | .unset => "Unset"
+  | .prepared c => s!"Prepared:{s.cpLabel c}"
+  | .preparedValid c => s!"PreparedValid:{s.cpLabel c}"
+  | .checkedPreparedMismatch c => s!"CheckedPreparedMismatch:{s.cpLabel c}"
+  | .executedBlock h cp =>
+      s!"ExecutedBlock:{hex8 h}:{match cp with | some c => s.cpLabel c | none => "none"}"
+  | .checkedExecutedBlockMismatch h cp =>
+      s!"CheckedExecutedBlockMismatch:{hex8 h}:{match cp with | some c => s.cpLabel c | none => "none"}"
+
+def Sess.txOf (s : Sess) (id : Nat) : Tx :=
+  match s.txs.find? (·.1 = id) with
+  | some (_, ti) => ti.tx
+  | none => { id := id, len := 0, seq := 0, group := 4 }
+
+def Sess.specOf (s : Sess) (id : Nat) : String :=
+  match s.txs.find? (·.1 = id) with
+  | some (_, ti) => ti.spec
+  | none => "?"
+
+/-- `R1#5`, `R2#6`, `E#7:463:1`, `T12`, `G#9:309` -/
+def Sess.parseItem (s : Sess) (w : String) : Item :=
+  match w.splitOn "#" with
+  | [k, rest] =>
+    let ps := rest.splitOn ":"
+    match k, ps with
+    | "R1", [b] => .root1 (natOf b)
+    | "R2", [b] => .root2 (natOf b)
+    | "E", [b, l, wf] => .eci (natOf b) (natOf l) (wf = "1")
+    | "G", [b, l] => .garbage (natOf b) (natOf l)
+    | _, _ => .garbage 0 0
+  | _ => .tx (s.txOf (idOf w))
+
+def itemShape : Item → String
+  | .root1 _ => "R1" | .root2 _ => "R2" | .upgrade _ => "U" | .eci _ l _ => s!"E:{l}"
+  | .tx t => s!"T{t.id}" | .garbage _ l => s!"G:{l}"
+
+/-- register the block described by a `h=.. t=.. … items=..` section -/
+def Sess.addBlock (s : Sess) (bid : Nat) (desc : String) : Sess :=
+  let ws := Driver.words desc
+  let lc := kv ws "lc"
+  let (s, lcid) := s.lcId lc
+  let items := (commaList (kv ws "items")).map s.parseItem
+  let x := natOf (kv ws "x")
+  let s := if (s.xs.find? (·.1 = items)).isSome then s else { s with xs := s.xs ++ [(items, x)] }
+  let er := match (kv ws "er").splitOn "," with
+    | [a, b] => (natOf a, natOf b)
+    | _ => (0, 0)
+  let hs := kv ws "hash"
+  let blk : Block :=
+    { height := natOf (kv ws "h"), time := natOf (kv ws "t"), proposer := natOf (kv ws "p"),
+      lastCommit := some lcid, misbehavior := 0, nextValHash := 0, items := items,
+      hash := some (hexToNat hs) }
+  let bi : BlkInfo := { blk := blk, lcStr := lc, er := er, np := natOf (kv ws "np"), src := kv ws "src", hashStr := hs }
+  { s with blks := (bid, bi) :: s.blks.filter (·.1 ≠ bid) }
+
+def Sess.blkOf (s : Sess) (bid : Nat) : Option BlkInfo := (s.blks.find? (·.1 = bid)).map (·.2)
+
+def txItemIds (b : Block) : List Nat :=
+  b.items.filterMap fun i => match i with | .tx t => some t.id | _ => none
+
+/-- ids of the items in transaction position (for `cs=` / `xo=`), `0` for garbage -/
+def txPosIds (b : Block) : List Nat :=
+  match parseItems true b.items with
+  | .ok pd => pd.txs.map fun i => match i with | .tx t => t.id | _ => 0
+  | .error _ =>
+    b.items.filterMap fun i => match i with | .tx t => some t.id | .garbage _ _ => some 0 | _ => none
+
+def clearLogs (a : AppState DS) : AppState DS :=
+  { a with committed := { log := "", n := 0 }, work := { log := "", n := 0 },
+           writeBatch := a.writeBatch.map fun _ => { log := "", n := 0 } }
+
+def phStr (s : String) : String := if s = "" then "-" else s
+
+def blockTags (s : Sess) (bi : BlkInfo) : String :=
+  let acts := " ".intercalate ((txItemIds bi.blk).map s.specOf)
+  let tags := (if bi.np > 0 then ["prices"] else []) ++
+    (if (acts.splitOn "pair.rm").length > 1 then ["pair-removal"] else [])
+  s!"np={bi.np} src={bi.src} tags={",".intercalate tags} acts=[{acts}]"
+
+def monitoredMutations : List String :=
+  ["mutate:root1", "mutate:root2", "mutate:swaproots", "mutate:drop0", "mutate:drop1", "mutate:dropE",
+   "mutate:Elast", "mutate:Efirst", "mutate:garbage", "mutate:unsigned", "mutate:regroup",
+   "mutate:fatal", "mutate:overseq"]
+
+/-! ### the replay -/
 
 def run (lines : Array String) : Driver.Report := Id.run do
   let mut r : Driver.Report := {}
+  let mut st : Sess := {}
+  let mut sessions := 0
   let mut n := 0
   for line in lines do
     n := n + 1
-    r := r.addDisagree n line "bad-area"
+    let (op, impl) := Driver.splitLine line
+    let ows := Driver.words op
+    let secs := sections impl
+    let sec0 := secs.headD ""
+    let iws := Driver.words sec0
+    let verdict := iws.headD ""
+    match ows with
+    | "abci" :: "reset" :: _ =>
+      sessions := sessions + 1
+      let k := natOf (kv ows "k")
+      st := { no := sessions, insts := Array.replicate k (AppState.init ({} : DS)) }
+      r := r.check n line impl s!"ok h={kv iws "h"} same={kv iws "same"} exec=Unset"
+      r := r.bump "sessions"
+      if kv iws "same" ≠ "1" then
+        r := r.addMonitor "path_independence" n line "instances differ right after genesis + upgrade blocks"
+    | "abci" :: "mktx" :: _ =>
+      r := r.check n line impl impl
+      r := r.bump s!"mktx_{(verdict.splitOn ":").headD ""}"
+      if verdict = "ok" then
+        let id := idOf (kv ows "t")
+        let tx : Tx := { id := id, len := natOf (kv iws "len"), seq := natOf (kv iws "seq"), group := natOf (kv iws "g") }
+        st := { st with txs := (id, { tx := tx, spec := kv ows "a" }) :: st.txs }
+        r := r.bump s!"tx_group_{tx.group}"
+    | "abci" :: "clearmp" :: _ =>
+      r := r.check n line impl "ok"
+    | "abci" :: "insert" :: _ =>
+      -- the mempool is not part of this model (C13); the builder queue is an input of `prepare`
+      r := r.check n line impl impl
+      r := r.bump s!"insert_{verdict}"
+    | "abci" :: "variant" :: _ | "abci" :: "mutate" :: _ =>
+      r := r.check n line impl impl
+      if verdict = "ok" then
+        st := st.addBlock (idOf (kv ows "b")) (secs.getD 1 "")
+        r := r.bump s!"blk_{kv (Driver.words (secs.getD 1 "")) "src"}"
+      else r := r.bump "mutate_inapplicable"
+    | "abci" :: "restart" :: _ =>
+      let i := natOf (kv ows "i")
+      let a := st.insts.getD i (AppState.init {})
+      let (a', _) := step (mkPrims {}) a .restart
+      st := { st with insts := st.insts.setIfInBounds i a' }
+      r := r.check n line impl s!"ok exec={st.execStr a'.exec}"
+      r := r.bump "op_restart"
+    | "abci" :: "prepare" :: _ =>
+      let i := natOf (kv ows "i")
+      let bid := idOf (kv ows "b")
+      let a := clearLogs (st.insts.getD i (AppState.init {}))
+      -- queue and outcomes
+      let qs := kv iws "q"
+      let qents : List Tx := (if qs = "-" then [] else qs.splitOn ";").map fun e =>
+        match e.splitOn ":" with
+        | [id, len, sq, g] => { id := natOf id, len := natOf len, seq := natOf sq, group := natOf g }
+        | _ => { id := 0, len := 0, seq := 0, group := 4 }
+      let letters := (kv iws "o").toList
+      let inj := (kv iws "inj").splitOn "/"
+      let fullLen := natOf (inj.getD 0 "0")
+      let emptyLen := natOf (inj.getD 1 "0")
+      let ve := kv ows "ve"
+      let lc := if ve = "none" then "0:none" else s!"{(ve.splitOn "/").headD "0"}:{"~".intercalate (ve.splitOn "/")}"
+      let (st1, lcid) := st.lcId lc
+      st := st1
+      -- oracles from the block description (ids of the commitment / ECI byte strings)
+      let desc := secs.getD 2 ""
+      let dws := Driver.words desc
+      let ditems := (commaList (kv dws "items")).map st.parseItem
+      let r1 := match ditems with | .root1 b :: _ => b | _ => 0
+      let r2 := match ditems with | _ :: .root2 b :: _ => b | _ => 0
+      let eb := match ditems with | _ :: _ :: .eci b _ _ :: _ => b | _ => 0
+      let o : Oracle :=
+        { outcomes := attempts (qents.map (·.id)) letters, roots := (r1, r2),
+          eciFull := (eb, fullLen), eciEmpty := (eb, emptyLen) }
+      let maxS := kv ows "max"
+      let req : PrepReq :=
+        { height := natOf (kv ows "h"), time := natOf (kv ows "t"), proposer := natOf (kv ows "p"),
+          lastCommit := some lcid, misbehavior := 0, nextValHash := 0,
+          maxTxBytes := maxS.toInt?.getD 0, queue := qents }
+      let (a', resp) := step (mkPrims o) a (.prepare req)
+      st := { st with insts := st.insts.setIfInBounds i a' }
+      let echo := s!"q={qs} o={kv iws "o"} inj={kv iws "inj"}"
+      match resp with
+      | .prepared items =>
+        if verdict = "ok" then st := st.addBlock bid desc
+        let inc := items.filterMap fun it => match it with | .tx t => some (toString t.id) | _ => none
+        let cb := (items.map Item.len).sum
+        let sb := (items.map fun it => match it with | .tx t => t.seq | _ => 0).sum
+        let shape := ",".intercalate (items.map itemShape)
+        let m := s!"ok {echo} | inc={if inc.isEmpty then "-" else ",".intercalate inc} cb={cb} sb={sb} shape={shape} exec={st.execStr a'.exec} ph={phStr a'.work.log} | {desc}"
+        r := r.check n line impl m
+        r := r.bump "prepare_ok"
+        if items ≠ ditems ∧ verdict = "ok" then
+          r := r.addDisagree n line "model's proposal items differ from the implementation's"
+      | .prepareErr e =>
+        r := r.check n line impl s!"err:{e.name} {echo} | exec={st.execStr a'.exec} ph={phStr a'.work.log}"
+        r := r.bump s!"prepare_err_{e.name}"
+      | _ => r := r.addDisagree n line "bad-response"
+      -- monitor `within_limits` on the implementation's own proposal
+      if verdict = "ok" then
+        let mws := Driver.words (secs.getD 1 "")
+        let incIds := (commaList (kv mws "inc")).map natOf
+        let cbI := natOf (kv mws "cb")
+        let sbI := natOf (kv mws "sb")
+        let maxN := natOf maxS
+        let incTx := incIds.map fun id => (qents.find? (·.id = id)).getD { id := id, len := 0, seq := 0, group := 4 }
+        let eciLen := match ditems with | _ :: _ :: .eci _ l _ :: _ => l | _ => 0
+        let sumLen := 68 + eciLen + (incTx.map (·.len)).sum
+        let sumSeq := (incTx.map (·.seq)).sum
+        let groupsOk := (incTx.map (·.group)).zip ((incTx.map (·.group)).drop 1) |>.all fun (g1, g2) => g2 ≤ g1
+        let letterOf := fun (id : Nat) =>
+          match (qents.map (·.id)).zip letters |>.find? (·.1 = id) with
+          | some (_, c) => c
+          | none => '?'
+        let badIncluded := incIds.filter fun id => letterOf id ≠ 'k' ∧ letterOf id ≠ 'n'
+        for _ in incIds do r := r.bump "included_txs"
+        r := r.bump s!"queue_len_{if qents.length > 8 then "9+" else toString qents.length}"
+        for c in letters do r := r.bump s!"queue_outcome_{c}"
+        if cbI > maxN ∨ sumLen > maxN then
+          r := r.addMonitor "within_limits" n line s!"proposal bytes {sumLen} exceed max_tx_bytes {maxN}"
+        if sbI > 256000 ∨ sumSeq > 256000 then
+          r := r.addMonitor "within_limits" n line s!"sequenced data {sumSeq} exceeds 256000"
+        if cbI ≠ sumLen ∨ sbI ≠ sumSeq then
+          r := r.addMonitor "within_limits" n line s!"reported sizes ({cbI},{sbI}) differ from the recomputed ({sumLen},{sumSeq})"
+        if !groupsOk then
+          r := r.addMonitor "within_limits" n line "included transactions are not ordered by group"
+        if !badIncluded.isEmpty then
+          r := r.addMonitor "within_limits" n line s!"included transactions that failed fatally or were not executed: {badIncluded}"
+    | "abci" :: "process" :: _ =>
+      let i := natOf (kv ows "i")
+      let bid := idOf (kv ows "b")
+      match st.blkOf bid with
+      | none =>
+        r := r.check n line impl "err:noblock"
+      | some bi =>
+        let a := clearLogs (st.insts.getD i (AppState.init {}))
+        let kind := ((verdict.splitOn ":").getD 1 "")
+        let posIds := txPosIds bi.blk
+        let cs := (kv iws "cs").toList
+        let xo := (kv iws "xo").toList
+        let o : Oracle :=
+          { veValid := kind ≠ "ve", preFails := if kind = "pre" then some .pre else none,
+            postFails := kind = "post",
+            cs := posIds.zip (cs.map (· = '1')),
+            outcomes := attempts posIds xo, roots := bi.er, np := bi.np }
+        let (a', resp) := step (mkPrims o) a (.process bi.blk)
+        st := { st with insts := st.insts.setIfInBounds i a' }
+        let (_, skip) := a.exec.checkPrepared bi.blk.fp
+        let parsed := match parseItems true bi.blk.items with | .ok _ => true | .error _ => false
+        let rs := if !skip && parsed then 1 else 0
+        let v := match resp with
+          | .accept => "accept"
+          | .reject e => s!"reject:{e.name}"
+          | _ => "bad-response"
+        r := r.check n line impl s!"{v} cs={kv iws "cs"} xo={kv iws "xo"} | exec={st.execStr a'.exec} rs={rs} ph={phStr a'.work.log}"
+        r := r.bump s!"process_{verdict}"
+        r := r.bump s!"process_path_{if skip then "cached" else "executed"}"
+        -- monitors on the implementation's verdict
+        let wf := bi.blk.items.all fun it => match it with | .eci _ _ w => w | _ => true
+        let tags := (if !wf then ["eci-fallback"] else []) ++ (if cs.contains '0' then ["unconstructible"] else [])
+        if bi.src = "prepare" ∧ verdict ≠ "accept" then
+          r := r.addMonitor "honest_accepted" n line s!"proposal produced by prepare_proposal was rejected: {verdict} tags={",".intercalate tags} {blockTags st bi}"
+        if monitoredMutations.contains bi.src then
+          r := r.bump s!"mutation_{bi.src}_{(verdict.splitOn ":").headD ""}"
+          if verdict = "accept" then
+            r := r.addMonitor "mutated_rejected" n line s!"a {bi.src} proposal was accepted: {blockTags st bi}"
+    | "abci" :: "finalize" :: _ =>
+      let i := natOf (kv ows "i")
+      let bid := idOf (kv ows "b")
+      match st.blkOf bid with
+      | none => r := r.check n line impl "err:noblock"
+      | some bi =>
+        let a0 := st.insts.getD i (AppState.init {})
+        if a0.writeBatch.isSome then
+          r := r.check n line impl "err:already-finalized"
+        else
+          let a := clearLogs a0
+          let kind := ((verdict.splitOn ":").getD 1 "")
+          let posIds := txPosIds bi.blk
+          let cs := (kv iws "cs").toList
+          let xo := (kv iws "xo").toList
+          let o : Oracle :=
+            { preFails := if kind = "pre" then some .pre else none, postFails := kind = "post",
+              pricesFail := kind = "prices",
+              cs := posIds.zip (cs.map (· = '1')),
+              outcomes := attempts posIds xo, roots := bi.er, np := bi.np }
+          let (_, skip) := match bi.blk.hash with
+            | some h => a.exec.checkExecuted h
+            | none => (a.exec, false)
+          let (a', resp) := step (mkPrims o) a (.finalize bi.blk)
+          st := { st with insts := st.insts.setIfInBounds i a' }
+          let staged := match a'.writeBatch with | some w => w.log | none => a'.work.log
+          -- the price span is created before the failing put: a failed price phase still shows `$`
+          let staged := if kind = "prices" ∧ bi.np > 0 then staged ++ "$" else staged
+          let tail := s!"cs={kv iws "cs"} xo={kv iws "xo"} | exec={st.execStr a'.exec} ph="
+          match resp with
+          | .finalized fr =>
+            let codes := ",".intercalate (fr.codes.map toString)
+            r := r.check n line impl s!"ok app={kv iws "app"} res={if fr.codes.isEmpty then "-" else codes} vu={kv iws "vu"} cpu={kv iws "cpu"} ev={kv iws "ev"} {tail}{phStr (staged ++ "M")}"
+          | .finalizeErr e =>
+            r := r.check n line impl s!"err:{e.name} {tail}{phStr staged}"
+          | .finalizePanic =>
+            r := r.check n line impl s!"panic {tail}{phStr staged}"
+          | _ => r := r.addDisagree n line "bad-response"
+          r := r.bump s!"finalize_{(verdict.splitOn ":").headD ""}"
+          r := r.bump s!"finalize_path_{if skip then "cached" else "executed"}"
+          if bi.np > 0 then r := r.bump s!"finalize_with_prices_{if skip then "cached" else "executed"}"
+          -- monitor `path_independence`: every instance that finalizes this block reports the same
+          let core := if verdict = "ok"
+            then s!"ok app={kv iws "app"} res={kv iws "res"} vu={kv iws "vu"} cpu={kv iws "cpu"} ev={kv iws "ev"}"
+            else "failed"
+          match st.fins.find? (·.1 = bid) with
+          | none => st := { st with fins := (bid, core, n) :: st.fins }
+          | some (_, first, ln) =>
+            r := r.bump "finalize_compared"
+            if first ≠ core then
+              let tags := if cs.contains '0' then "unconstructible" else ""
+              r := r.addMonitor "path_independence" n line s!"FinalizeBlock differs from line {ln}: first=[{first}] this=[{core}] path={if skip then "cached" else "executed"} {tags} {blockTags st bi}"
+    | "abci" :: "commit" :: _ =>
+      let i := natOf (kv ows "i")
+      let a := st.insts.getD i (AppState.init {})
+      let (a', resp) := step (mkPrims {}) a .commit
+      st := { st with insts := st.insts.setIfInBounds i a' }
+      match resp with
+      | .committed =>
+        r := r.check n line impl s!"ok h={kv iws "h"} app={kv iws "app"} sv={kv iws "sv"} snv={kv iws "snv"} exec={st.execStr a'.exec}"
+        let h := natOf (kv iws "h")
+        let core := s!"app={kv iws "app"} sv={kv iws "sv"} snv={kv iws "snv"}"
+        match st.commits.find? (·.1 = h) with
+        | none => st := { st with commits := (h, core) :: st.commits }
+        | some (_, first) =>
+          r := r.bump "commit_compared"
+          if first ≠ core then
+            r := r.addMonitor "path_independence" n line s!"committed state differs at height {h}: first=[{first}] this=[{core}]"
+      | _ => r := r.check n line impl "err:nobatch"
+      r := r.bump "op_commit"
+    | _ => r := r.addDisagree n line "bad-op"
   return r
 
 end Driver.AbciArea
